@@ -738,6 +738,14 @@ def jsonable(v):
         return float(v)
     if isinstance(v, (np.integer,)):
         return int(v)
+    if isinstance(v, (np.bool_,)):
+        return bool(v)
+    if isinstance(v, (set, frozenset)):
+        return {'__set__': sorted(jsonable(x) for x in v)}
+    if hasattr(v, 'tolist') and not isinstance(v, (str, bytes)):
+        return jsonable(v.tolist())
+    if hasattr(v, 'name') and hasattr(v, 'value') and type(v).__module__.startswith('copulas'):
+        return v.name          # enum members (CopulaTypes)
     return v
 
 
